@@ -17,7 +17,19 @@ def impl_eval(case):
     msg = iu.dict_unwire(case['msg'])
     codec = case['codec']
     data = iso8583.dumps(dict(msg), encoding=codec, iso_config=plain, hex_bitmap=bool(case['hex']))
-    obs, d, _ = iu.obs_loads(lambda: iso8583.loads(data, encoding=codec, iso_config=cfg, hex_bitmap=bool(case['hex'])), cfg)
+    use = cfg
+    if case.get('hist'):
+        # a HISTORY: the caller decodes once without masking, switches masking on in the SAME configuration object (or a
+        # deep copy of it), and decodes again — the second decode must mask
+        use = copy.deepcopy(plain)
+        try:
+            iso8583.loads(data, encoding=codec, iso_config=use, hex_bitmap=bool(case['hex']))
+        except Exception:  # noqa
+            pass
+        if case['hist'] == 'deepcopy':
+            use = copy.deepcopy(use)
+        c01.edit_in_place(use, cfg)
+    obs, d, _ = iu.obs_loads(lambda: iso8583.loads(data, encoding=codec, iso_config=use, hex_bitmap=bool(case['hex'])), cfg)
     why = None
     if d is None:
         why = f'decoding failed: {obs}'
@@ -77,6 +89,9 @@ def explore(run, tier):
                     m = {'MTI': '1240', f'DE{k}': pan, 'DE3': '000000', 'DE24': iu.text(rng, codec, 3)}
                     cases.append({'cfg': cfg, 'codec': codec, 'hex': n % 2, 'msg': iu.dict_wire(m),
                                   'unique': kind == 'digits'})
+                    if n in (10, 11, 16, 19, 25, 40):
+                        cases.append({'cfg': cfg, 'codec': codec, 'hex': n % 2, 'msg': iu.dict_wire(m),
+                                      'unique': kind == 'digits', 'hist': ['inplace', 'deepcopy'][(n + rep) % 2]})
     for _ in range(40 if tier == 'quick' else 400):
         cfg = iu.gen_config(rng)
         if not any(fc.get('field_processor') in ('PAN', 'PAN-PREFIX') for fc in cfg.values()):
